@@ -129,8 +129,13 @@ def build_repo(variant="asan"):
         lib = os.path.join(bdir, "libxmp.a")
         if os.path.exists(lib) and os.path.exists(os.path.join(bdir, ".ok")):
             return bdir
-        for d in os.listdir(CACHE):
-            if d.startswith(variant + "-") and d != key:
+        # purge stale build directories of this variant, but never one that may still be in use by a
+        # concurrent check started before /repo changed (age limit), and keep the disk bounded (max 4)
+        stale = sorted((os.path.getmtime(os.path.join(CACHE, d)), d) for d in os.listdir(CACHE)
+                       if d.startswith(variant + "-") and d != key and os.path.isdir(os.path.join(CACHE, d)))
+        now = time.time()
+        for i, (mt, d) in enumerate(stale):
+            if now - mt > 1200 or len(stale) - i > 4:
                 shutil.rmtree(os.path.join(CACHE, d), ignore_errors=True)
         shutil.rmtree(bdir, ignore_errors=True)
         t0 = time.time()
